@@ -42,11 +42,14 @@ func TestC06Random(t *testing.T) {
 }
 
 func TestC06Hostile(t *testing.T) {
-	for _, data := range c06HostileBytes() {
+	shard, nshards := ev.Shard()
+	for i, data := range c06HostileBytes() {
 		for _, v := range []int{3, 4, 5} {
 			for _, buf := range []int{16, 4096} {
-				if h := c06ParseHdr(data); h.wellFormed && h.rl > 16<<20 && !((v == 4 && buf == 16) || (v == 5 && buf == 4096)) {
-					continue // inputs declaring hundreds of MiB: two runs each are enough
+				if c06ParseHdr(data).lenient > 16<<20 && (i%nshards != shard || !((v == 4 && buf == 16) || (v == 5 && buf == 4096))) {
+					// inputs declaring hundreds of MiB cost tens of milliseconds each (only
+					// because of F-c06-alloc-declared-length): two runs each, on one shard
+					continue
 				}
 				s := c06BytesScen{V: v, Buf: buf, Data: data, Mut: "hostile"}
 				c := &ev.Case{}
